@@ -220,8 +220,8 @@ func verifyHMAC(x Rx) string {
 
 // perturbations returns copies of x, each with one covered part changed.
 func perturbations(x Rx) (names []string, xs []Rx) {
-	cp := func() Rx {
-		return Rx{Method: x.Method, Target: x.Target, Header: x.Header.Clone(), Body: append([]byte{}, x.Body...)}
+	cp := func() Rx { // the body is shared: only the body perturbations below replace it
+		return Rx{Method: x.Method, Target: x.Target, Header: x.Header.Clone(), Body: x.Body}
 	}
 	for _, n := range covered {
 		y := cp()
@@ -260,6 +260,7 @@ func perturbations(x Rx) (names []string, xs []Rx) {
 	if len(y.Body) == 0 {
 		y.Body = []byte("x")
 	} else {
+		y.Body = append([]byte{}, x.Body...)
 		y.Body[len(y.Body)/2] ^= 0x01
 	}
 	names, xs = append(names, "body"), append(xs, y)
@@ -269,4 +270,20 @@ func perturbations(x Rx) (names []string, xs []Rx) {
 		names, xs = append(names, "body-trunc"), append(xs, y)
 	}
 	return
+}
+
+// withContentLength returns x with the Content-Length header put back to what the client declared
+// ("" = the client sent none). Diagnosis only: tells a signature that fails solely because the
+// Content-Length header was regenerated in transit from one that fails for another reason.
+func withContentLength(x Rx, sent string) Rx {
+	y := Rx{Method: x.Method, Target: x.Target, Header: x.Header.Clone(), Body: x.Body}
+	for k := range y.Header {
+		if strings.EqualFold(k, "Content-Length") {
+			delete(y.Header, k)
+		}
+	}
+	if sent != "" {
+		y.Header["Content-Length"] = []string{sent}
+	}
+	return y
 }
